@@ -67,7 +67,20 @@ static sexp_uint_t hash_one (sexp ctx, sexp obj, sexp_uint_t bound, sexp_sint_t 
         /* if the field_base is 0, skip to the value */
         if ((sexp)p == obj) p=(sexp*)p0;
         /* hash uvector data (otherwise strings all hash to the same value) */
-        if (sexp_bytesp(obj) || sexp_uvectorp(obj) || sexp_bignump(obj)) {
+#if SEXP_USE_BIGNUMS
+        if (sexp_bignump(obj)) {
+          /* equal bignums can differ in their number of (zero) high words: */
+          /* hash the sign and the significant words only */
+          acc *= FNV_PRIME; acc ^= (unsigned char)sexp_bignum_sign(obj);
+          p_right = (char*)sexp_bignum_data(obj);
+          right_size = sexp_bignum_length(obj) * sizeof(sexp_uint_t);
+          while (right_size >= sizeof(sexp_uint_t)
+                 && ((sexp_uint_t*)p_right)[right_size/sizeof(sexp_uint_t) - 1] == 0)
+            right_size -= sizeof(sexp_uint_t);
+          for (i=0; i<right_size; i++) {acc *= FNV_PRIME; acc ^= p_right[i];}
+        } else
+#endif
+        if (sexp_bytesp(obj) || sexp_uvectorp(obj)) {
           p_right = ((char*)p + sexp_type_num_slots_of_object(t, obj)*sizeof(sexp));
           right_size = ((char*)obj + sexp_type_size_of_object(t, obj)) - p_right;
           for (i=0; i<right_size; i++) {acc *= FNV_PRIME; acc ^= p_right[i];}
